@@ -227,8 +227,8 @@ impl Tr {
                 }
             }
             nodes = vec![];
-            let pos = block.stmts.first().map(|s| pos_of(s)).unwrap_or(pos_of(&block));
-            nodes.push(Node::Site(self.new_site(&cx, "fn", pos, end_of(&block), &header)));
+            let (pos, anchored) = walk::site_anchor(&block);
+            nodes.push(Node::Site(self.new_site(&cx, if anchored { "fn" } else { "fn-unanchored" }, pos, end_of(&block), &header)));
             cx.push_scope();
             let nst = block.stmts.len();
             for (k, s) in block.stmts.iter().enumerate() {
@@ -356,8 +356,7 @@ fn main() {
     let mut failed = false;
     for op in &todo {
         if let Err(e) = tr.analyse(op) {
-            eprintln!("ctskel: ERROR {e}");
-            failed = true;
+            tr.errors.push(e);
         }
     }
     for e in &tr.errors {
@@ -365,6 +364,12 @@ fn main() {
         failed = true;
     }
     if failed {
+        // never leave a stale skeleton behind: the generated module must not compile when the translator is broken
+        let msg: Vec<String> = tr.errors.iter().map(|e| e.replace('"', "'")).collect();
+        let stub = format!("/- GENERATED by tools/ctskel — TRANSLATOR FAILED, see stderr of tools/ctskel -/\nimport SlVerif.Model.Ct\n\
+                            namespace SlVerif.Generated\n/-- {} -/\ntheorem ctskel_translator_failed : (0 : Nat) = 1 := by decide\nend SlVerif.Generated\n", msg.join("; "));
+        write_if_changed(&out_lean, &stub);
+        let _ = std::fs::remove_file(&out_json);
         std::process::exit(2);
     }
 
